@@ -344,16 +344,16 @@ Definition check_c07 (t : term) : term :=
                     (existsb (fun f => match f with FOk f => negb (match f_oacts f with [] => true | _ => false end) | _ => false end) fs)
                     (if mc then TL [TS "fork"] else detail)
         | _ =>
-            (* every failing fork must carry the signature of a recorded finding AND be predicted by the model *)
-            let sigs := map (fun o => match o with
-                                      | Some f => if fork_corr c f then fork_signature c f else None
-                                      | None => None
-                                      end) bad in
+            (* a failing fork without the shape of a recorded finding is a violation; with the shape it
+               is the finding only if the model predicts the whole case, else the correspondence is broken *)
+            let sigs := map (fun o => match o with Some f => fork_signature c f | None => None end) bad in
+            let predicted := forallb (fun o => match o with Some f => fork_corr c f | None => false end) bad in
             match sigs with
             | Some name :: _ =>
-                if forallb (fun s => match s with Some _ => true | None => false end) sigs && mc
-                then v_known name (TL [tn (N.of_nat (List.length bad))])
-                else v_viol (TL [TS "fork_spec"])
+                if negb (forallb (fun s => match s with Some _ => true | None => false end) sigs)
+                then v_viol (TL [TS "fork_spec"])
+                else if mc && fc && predicted then v_known name (TL [tn (N.of_nat (List.length bad))])
+                else v_diff (if mc then TL [TS "fork"] else detail)
             | _ => v_viol (TL [TS "fork_spec"])
             end
         end
